@@ -218,6 +218,20 @@ def molecule_recipe(rng, natoms):
     return {"kind": "molecule", "z": z, "at": at, "pt": pts, "poses": poses, "events": events}
 
 
+def big_recipe(rng):
+    """More than a thousand atoms, evaluated as two subsets that differ in one interior atom each (same size, same first and
+    last atoms): whatever the library keeps per element assignment must distinguish them."""
+    r = molecule_recipe(rng, 1101)
+    ids = list(range(1, 1102))
+    z = r["z"]
+    a = 400
+    b = next(i for i in range(600, 900) if z[i - 1] != z[a - 1])
+    r["pt"] = r["pt"][:6]
+    r["poses"] = r["poses"][:1]
+    r["events"] = [["Eval", [i for i in ids if i != a]], ["Eval", [i for i in ids if i != b]], ["Eval", [i for i in ids if i != a]]]
+    return r
+
+
 # ------------------------------------------------------------------ driving the real code
 def _f32(v):
     return float(np.float32(v))
@@ -261,7 +275,7 @@ def drive(recipe):
             # every atom set of the program, element labels in the spellings files use (Cl, CL, cl7, CL12)
             from chmpy.core.element import Element
             xyz = coords(pose, ids)
-            lines = [str(len(ids)), "set %s" % (ids[:6],)]
+            lines = [str(len(ids)), ("set %s" % (ids[:6],), "", "   ")[(len(ids) + ids[0]) % 3]]       # the title line may be blank
             for k, a in enumerate(ids):
                 sym = Element.from_atomic_number(z[a - 1]).symbol
                 lab = (sym, sym.upper(), sym.lower() + str(k + 1), sym.upper() + str(10 * k + 3))[(k + len(ids) + a) % 4]
@@ -469,6 +483,7 @@ def _recipes(ctx):
     sizes = [1, 2, 3, 4, 5, 6, 8, 12, 20, 30, 40]
     for i in range(ctx.pick(100, 3000)):
         recipes.append(molecule_recipe(rng, sizes[i % len(sizes)] if i < 22 else rng.choice(sizes)))
+    recipes.append(big_recipe(rng))
     # some programs evaluate their points inside one large call (35k-70k points)
     nemb = 0
     for r in recipes:
@@ -541,8 +556,8 @@ def lerp_recipes(ctx):
         lo4, hi4 = 4 * xp0, 4 * (xp0 + n - 1)
         # distances are never far below the first node (the table starts at r = 0); just below it is the lower fill
         xs4 = [lo4, hi4, lo4 - 1, hi4 + 1, hi4 + 40, lo4 - 3] + [rng.randint(lo4 - 3, hi4 + 12) for _ in range(12)]
-        out.append({"xp0": xp0, "yp": yp, "xs4": xs4, "has_lfill": rng.random() < 0.3, "lfill": rng.randint(0, 50),
-                    "has_ufill": rng.random() < 0.3, "ufill": rng.randint(0, 50)})
+        out.append({"xp0": xp0, "yp": yp, "xs4": xs4, "has_lfill": rng.random() < 0.4, "lfill": rng.choice([0, 0, rng.randint(0, 50)]),
+                    "has_ufill": rng.random() < 0.4, "ufill": rng.choice([0, 0, rng.randint(0, 50)])})
     return out
 
 
